@@ -1138,43 +1138,47 @@ class PDFDocument:
         xrefs: List[PDFBaseXRef],
     ) -> None:
         """Reads XRefs from the given location."""
-        if start in self._xref_positions:
-            # a /Prev or /XRefStm chain that leads back to a section already
-            # read: following it again would never end
-            return
-        self._xref_positions.add(start)
-        try:
-            parser.seek(start)
-        except (OverflowError, ValueError, OSError):
-            # e.g. a /Prev that is negative or does not fit a file offset
-            raise PDFNoValidXRef(f"Invalid xref position: {start}")
-        parser.reset()
-        try:
-            (pos, token) = parser.nexttoken()
-        except PSEOF:
-            raise PDFNoValidXRef("Unexpected EOF")
-        log.debug("read_xref_from: start=%d, token=%r", start, token)
-        if isinstance(token, int):
-            # XRefStream: PDF-1.5
-            parser.seek(pos)
+        # The sections are visited in the order section, its /XRefStm chain,
+        # its /Prev chain. A document may have been updated thousands of
+        # times, so the chains are followed with a list, not by recursion.
+        pending = [start]
+        while pending:
+            start = pending.pop()
+            if start in self._xref_positions:
+                # a /Prev or /XRefStm chain that leads back to a section
+                # already read: following it again would never end
+                continue
+            self._xref_positions.add(start)
+            try:
+                parser.seek(start)
+            except (OverflowError, ValueError, OSError):
+                # e.g. a /Prev that is negative or does not fit a file offset
+                raise PDFNoValidXRef(f"Invalid xref position: {start}")
             parser.reset()
-            xref: PDFBaseXRef = PDFXRefStream()
-            xref.load(parser)
-        else:
-            if token is parser.KEYWORD_XREF:
-                parser.nextline()
-            xref = PDFXRef()
-            xref.load(parser)
-        xrefs.append(xref)
-        trailer = xref.get_trailer()
-        log.debug("trailer: %r", trailer)
-        if "XRefStm" in trailer:
-            pos = int_value(trailer["XRefStm"])
-            self.read_xref_from(parser, pos, xrefs)
-        if "Prev" in trailer:
-            # find previous xref
-            pos = int_value(trailer["Prev"])
-            self.read_xref_from(parser, pos, xrefs)
+            try:
+                (pos, token) = parser.nexttoken()
+            except PSEOF:
+                raise PDFNoValidXRef("Unexpected EOF")
+            log.debug("read_xref_from: start=%d, token=%r", start, token)
+            if isinstance(token, int):
+                # XRefStream: PDF-1.5
+                parser.seek(pos)
+                parser.reset()
+                xref: PDFBaseXRef = PDFXRefStream()
+                xref.load(parser)
+            else:
+                if token is parser.KEYWORD_XREF:
+                    parser.nextline()
+                xref = PDFXRef()
+                xref.load(parser)
+            xrefs.append(xref)
+            trailer = xref.get_trailer()
+            log.debug("trailer: %r", trailer)
+            if "Prev" in trailer:
+                # find previous xref (after the /XRefStm chain, if any)
+                pending.append(int_value(trailer["Prev"]))
+            if "XRefStm" in trailer:
+                pending.append(int_value(trailer["XRefStm"]))
 
 
 class PageLabels(NumberTree):
